@@ -12,6 +12,8 @@ import (
 
 // e8out is what one abstract run produced.
 type e8out struct {
+	in       *e8interp // the run (for its call trace)
+	signal   *e8return // break/continue signal that ended a loop-body run
 	returned bool
 	ret      []*val
 	fr       *e8frame
@@ -29,6 +31,7 @@ type e8row struct {
 	group   func(name string) int
 	pre     func(a *e8assign, names *e8names) bool // may be called with a partial assignment (use a.has)
 	lenEqOpaque bool
+	opaque  map[*types.Func]bool
 	spec    func(a *e8assign, names *e8names, out *e8out) string
 }
 
@@ -209,6 +212,10 @@ func (p *Program) runE8(c *Check, row *e8row) {
 		run = p.defaultRun(row)
 	}
 	var failure string
+	extra := &e8collector{scalars: map[string]bool{}, bools: map[string]bool{}}
+	restarts := 0
+restart:
+	retry := false
 	func() {
 		defer func() {
 			if r := recover(); r != nil {
@@ -216,14 +223,34 @@ func (p *Program) runE8(c *Check, row *e8row) {
 					failure = e.msg
 					return
 				}
+				if u, ok := r.(e8unknown); ok {
+					// an atom behind a branch that discovery did not carry forward: add it and start over
+					if restarts < 40 && !extra.scalars[u.name] && !extra.bools[u.name] {
+						if u.isBool {
+							extra.bools[u.name] = true
+						} else {
+							extra.scalars[u.name] = true
+						}
+						retry = true
+						return
+					}
+					failure = "the value " + u.name + " is outside the comparison-network model"
+					return
+				}
 				panic(r)
 			}
 		}()
 		// discovery
 		col := &e8collector{scalars: map[string]bool{}, bools: map[string]bool{}}
-		run(&e8interp{p: p, collect: col, lenEqOpaque: row.lenEqOpaque})
+		run(&e8interp{p: p, collect: col, lenEqOpaque: row.lenEqOpaque, opaque: row.opaque})
 		for _, a := range row.atoms {
 			col.scalars[a] = true
+		}
+		for a := range extra.scalars {
+			col.scalars[a] = true
+		}
+		for a := range extra.bools {
+			col.bools[a] = true
 		}
 		names := &e8names{}
 		for s := range col.scalars {
@@ -281,7 +308,11 @@ func (p *Program) runE8(c *Check, row *e8row) {
 				return
 			}
 			evaluated++
-			out := run(&e8interp{p: p, a: a, lenEqOpaque: row.lenEqOpaque})
+			in := &e8interp{p: p, a: a, lenEqOpaque: row.lenEqOpaque, opaque: row.opaque}
+			out := run(in)
+			if out != nil {
+				out.in = in
+			}
 			if msg := row.spec(a, names, out); msg != "" && counter == "" {
 				counter = msg + "  [order type: " + describeOrder(a, names.scalars) + "]"
 			}
@@ -341,6 +372,11 @@ func (p *Program) runE8(c *Check, row *e8row) {
 		}
 		c.OK(rule, construct, pos, fmt.Sprintf("%s — tabulated over %d order types of %d atoms and %d opaque booleans, all agree", row.what, evaluated, len(names.scalars), len(names.bools)))
 	}()
+	if retry {
+		restarts++
+		// drop the obligations recorded by the aborted attempt
+		goto restart
+	}
 	if failure != "" {
 		c.Undecided(rule, construct, pos, "the code is not a comparison network the engine can tabulate ("+failure+"); spec: "+row.what)
 	}
